@@ -581,6 +581,17 @@ func (d *Document) AutoGenerateTOC(config *TOCConfig) error {
 	// 使用真正的Word域字段生成目录，而不是简化的SDT
 	tocElements := d.createWordFieldTOC(config, entries)
 
+	// 已有目录内容控件（GenerateTOC 或上一次 AutoGenerateTOC 生成的SDT）时原位替换它，
+	// 而不是再插入一个：findTOCStart 只认识段落样式的目录
+	if _, sdtIndex := d.findTOCSDT(); sdtIndex != -1 {
+		newElements := make([]interface{}, 0, len(d.Body.Elements)+len(tocElements))
+		newElements = append(newElements, d.Body.Elements[:sdtIndex]...)
+		newElements = append(newElements, tocElements...)
+		newElements = append(newElements, d.Body.Elements[sdtIndex+1:]...)
+		d.Body.Elements = newElements
+		return nil
+	}
+
 	// 将目录插入到指定位置
 	if insertIndex == 0 {
 		// 在开头插入
@@ -906,7 +917,7 @@ func (d *Document) collectHeadingsAndAddBookmarks(maxLevel int) []TOCEntry {
 	newElements := make([]interface{}, 0, len(d.Body.Elements)*2)
 	entryIndex := 0
 
-	for _, element := range d.Body.Elements {
+	for i, element := range d.Body.Elements {
 		if paragraph, ok := element.(*Paragraph); ok {
 			level := d.getHeadingLevel(paragraph)
 			if level > 0 && level <= maxLevel {
@@ -914,6 +925,18 @@ func (d *Document) collectHeadingsAndAddBookmarks(maxLevel int) []TOCEntry {
 				if text != "" {
 					// 为每个条目生成唯一的书签ID（与目录条目中使用的一致）
 					anchor := fmt.Sprintf("_Toc%d", generateUniqueID(text))
+
+					// 标题已被上一次生成目录时添加的一对 _Toc 书签包围：沿用这对书签
+					// （更新名称和ID），不再包上第二对，重复生成目录才是幂等的
+					if start, end := d.tocBookmarkAround(i); start != nil {
+						start.Name = anchor
+						start.ID = fmt.Sprintf("%d", entryIndex)
+						end.ID = start.ID
+						entries = append(entries, TOCEntry{Text: text, Level: level, PageNum: pageNum, BookmarkID: anchor})
+						newElements = append(newElements, element)
+						entryIndex++
+						continue
+					}
 
 					entry := TOCEntry{
 						Text:       text,
@@ -952,4 +975,20 @@ func (d *Document) collectHeadingsAndAddBookmarks(maxLevel int) []TOCEntry {
 	d.Body.Elements = newElements
 
 	return entries
+}
+
+// tocBookmarkAround 返回紧贴在正文第 index 个元素前后的一对 _Toc 书签（没有则返回 nil）
+func (d *Document) tocBookmarkAround(index int) (*BookmarkStart, *BookmarkEnd) {
+	if index < 1 || index+1 >= len(d.Body.Elements) {
+		return nil, nil
+	}
+	start, ok := d.Body.Elements[index-1].(*BookmarkStart)
+	if !ok || !strings.HasPrefix(start.Name, "_Toc") {
+		return nil, nil
+	}
+	end, ok := d.Body.Elements[index+1].(*BookmarkEnd)
+	if !ok || end.ID != start.ID {
+		return nil, nil
+	}
+	return start, end
 }
